@@ -9,17 +9,17 @@ EXPLANATION = ("CrossHair executes the real delta classes, ScanTotals, ScanResul
 def run(ctx):
     ctx.functions += ["LanguageTotalsDelta.*", "ScanTotalsDelta.*", "ScanTotals.languages_totals/total_*", "ScanResultTable.__init__/_populate", "format_markdown.print_totals/_print_totals",
                       "format_text.print_findings", "format_markdown.print_findings/_print_findings_with(out)_repository", "Report.all_report_units_sorted_by_length_asc"]
-    ctx.bounds = {"figures": "current/previous value of two languages for one column at a time: every non-negative int (unbounded)", "language sets": "same / one added / one removed / single language / no comparison report",
+    ctx.bounds = {"figures": "current/previous value of two languages for one column at a time: every non-negative int (unbounded)", "language sets": "same / one added / one removed / single language / no comparison report / comparison report without any language",
                   "findings": "0..25 findings, full flag, with/without repository"}
     ctx.assumptions += ["S-fmt: int.__format__ with 'n'/'+n' renders the value it is given (digits and locale grouping trusted)", "S-ui: recording console; table cells read from rich Table objects"]
     ctx.outside += ["several figure columns symbolic at once", "glyphs, wrapping, terminal width", "report_command / findings_command file handling (see C09 for read_report)"]
     T = 150 if ctx.quick() else 600
     jobs = []
     cols = ["files", "functions", "loc", "hard_to_maintain", "unmaintainable"]
-    scens = ["same", "added", "removed", "single", "nodiff"]
+    scens = ["same", "added", "removed", "single", "nodiff", "prevempty"]
     for c in cols:
         for s in scens:
-            if ctx.quick() and s in ("single", "nodiff") and c not in ("loc", "files"):
+            if ctx.quick() and s in ("single", "nodiff", "prevempty") and c not in ("loc", "files"):
                 continue
             jobs.append(Job("c18.py", "h_overview", {"column": c, "scenario": s}, T, 30, tag=f"{c}/{s}", meta={"sigtag": f"overview:{s}"}))
     jobs.append(Job("c18.py", "h_findings", {}, T, 30, tag="n<=25"))
